@@ -22,11 +22,11 @@ ASSUMPTIONS = [
     "cron recurrence not exercised (croniter absent); recurrence via deferred_by",
 ]
 EVAL_COUNTER = "deliveries_judged"
-REQUIRED = ["deliveries_judged", "exp_ack", "exp_nack", "exp_retry", "exp_reschedule", "exp_eager", "sentinels_acked", "cells_with_unencodable_return", "runs_on_the_default_connection", "redeliveries_compared"]
+REQUIRED = ["deliveries_judged", "exp_ack", "exp_nack", "exp_retry", "exp_reschedule", "exp_eager", "sentinels_acked", "cells_with_unencodable_return", "runs_on_the_default_connection", "redeliveries_compared", "runs_without_a_results_broker", "unprintable_failures_judged"]
 CASE_TIMEOUT = 120
 
 EAGER = ("ack", "nack", "reject", "retry", "force_retry", "reschedule")
-FAIL_EXC = ("ValueError", "RuntimeError", "KeyError", "AppTimeout", "ZeroDivisionError", "EmptyErrors", "QuietError")
+FAIL_EXC = ("ValueError", "RuntimeError", "KeyError", "AppTimeout", "ZeroDivisionError", "EmptyErrors", "QuietError", "Unprintable")
 POLICY_STEP = 0.25
 PERIOD = 3.0
 
@@ -196,7 +196,13 @@ async def scenario(loop, case, out, stats, fps, samples):
     # every fourth run: nobody is handed the connection, jobs and the worker find it through Repid's default-connection mechanism
     magic = case["seed"] % 4 == 0
     stats["runs_on_the_default_connection" if magic else "runs_with_explicit_connection"] += 1
-    w = World(loop, kind, converter=case["conv"], seed=case["seed"], latency=None if kind == "mem" else 0.001, magic=magic)
+    # every fifth run: the messages ask for their result to be kept, but this connection has no results broker - the result
+    # is lost, the disposition is not
+    no_rb = case["seed"] % 5 == 1
+    stats["runs_without_a_results_broker" if no_rb else "runs_with_a_results_broker"] += 1
+    if no_rb:
+        case["cells"] = [c for c in case["cells"] if not (c["o"].endswith(":res") or c["o"].endswith(":exc"))]
+    w = World(loop, kind, converter=case["conv"], seed=case["seed"], latency=None if kind == "mem" else 0.001, magic=magic, result_bucket=not no_rb)
     try:
         await w.open()
         step = 0.0 if case.get("zero_backoff") else POLICY_STEP
@@ -297,6 +303,8 @@ async def scenario(loop, case, out, stats, fps, samples):
                     stats["deliveries_unfinished_at_stop"] += 1
                     continue
                 stats["deliveries_judged"] += 1
+                if cell["o"] == "raise:Unprintable" and a == {"first": 0, "middle": cell["N"] // 2, "last": cell["N"]}[cell["pos"]]:
+                    stats["unprintable_failures_judged"] += 1
                 got = [disposition_kind(e, a) for e in s["disp"]]
                 stats["exp_" + {"ack": "ack", "nack": "nack", "reject": "eager", "requeue:retry": "retry", "requeue:reschedule": "reschedule"}[exp] if why == "ladder" else "exp_eager"] += 1
                 fps.add(f"{kind}/{case['conv']}/{cell['o']}/{cell['N']}/{cell['pos']}/{int(cell['rec'])}/{int(cell['store'])}/a{a}/{exp}")
@@ -364,7 +372,11 @@ def run_case(case):
         if isinstance(res.exc, vl.StepLimit):
             return {"fp": None, "viol": [], "stats": dict(stats), "inconclusive": str(res.exc)}
         out.append(V("harness_or_api_error", case["kind"], "scenario", f"{type(res.exc).__name__}: {res.exc}"))
-    loopexc = [e for e in res.exc_log if "callback failed" not in str(e)]
+    # (a result that cannot be written down - no results broker on this connection, a failure without a printable form - ends
+    # the per-message task with that error AFTER the disposition; only the disposition is this property's subject)
+    late = ("Results bucket broker is not configured", "no printable form")
+    stats["result_store_errors_after_the_disposition"] += sum(1 for e in res.exc_log if any(x in str(e.get("exception")) for x in late))
+    loopexc = [e for e in res.exc_log if "callback failed" not in str(e) and not any(x in str(e.get("exception")) for x in late)]
     if loopexc:
         stats["loop_exceptions"] += len(loopexc)
         out.append(V("inv:loop", case["kind"], "unhandled", f"event loop reported: {loopexc[:2]}"))
